@@ -321,3 +321,10 @@ def payload_variants(cls, tier):
     if name == "VorbisPlayer":
         return [0, 1, 5] if tier == "quick" else [0, 1, 2, 5, 64]
     return [None]
+
+
+def join(parts):
+    """b"".join for byte strings that may be symbolic (contract bodies run natively)."""
+    from rvproof.models import bytes_join
+
+    return bytes_join(b"", list(parts))
